@@ -294,14 +294,17 @@ def dot_literal_before_fraction(lib_pattern: str) -> bool:
     return bool(re.search(r"(\.'|\\\.|[.;]lt<)F", lib_pattern)) or bool(re.search(r"[.;]'F", lib_pattern))
 
 
-def build_pattern(t: str, pattern: str, cname: str, value, tmpl):
-    """Pattern whose template value lives in the value's calendar (so that patterns without `c` are applicable)."""
+def build_pattern(t: str, pattern: str, cname: str, value, tmpl, keep_iso: bool = False):
+    """Pattern whose template value lives in the value's calendar (so that patterns without `c` are applicable).
+    keep_iso: leave the default ISO template in place - the pattern's own `c` field has to carry the calendar."""
     from pyoda_time.text import InvalidPatternError
 
     try:
         p = T.create(t, pattern, cname)
         if tmpl is not None and hasattr(p, "with_template_value"):
             p = p.with_template_value(tmpl)
+        elif keep_iso:
+            pass
         elif t in ("date", "datetime") and value.calendar.id != "ISO" and hasattr(p, "with_calendar"):
             p = p.with_calendar(value.calendar)
     except InvalidPatternError:
@@ -338,10 +341,13 @@ def _k_fpf(c) -> CaseInfo:
             why = "month-beyond-12"
     if why is not None:
         return CaseInfo(False, f"n/a:{why}")
-    p = build_pattern(t, lib_pattern, cname, v, tmpl)
+    f = fields_of(pattern)
+    # a pattern with a complete numeric date and a calendar field carries the calendar itself: for half of those
+    # values the template stays the default ISO one, so the calendar has to travel through the text
+    keep_iso = tmpl is None and t in ("date", "datetime") and "c" in f and "u" in f and f.get("M", 0) in (1, 2) and f.get("d", 0) in (1, 2) and vj.get("n", 0) % 2 == 0
+    p = build_pattern(t, lib_pattern, cname, v, tmpl, keep_iso)
     if p is None:
         return CaseInfo(False, "n/a:invalid-pattern")
-    f = fields_of(pattern)
     if t in ("date", "datetime") and "c" not in f and len(pattern) > 1:
         pass  # template calendar = value calendar by construction
     text = p.format(v)
@@ -354,7 +360,7 @@ def _k_fpf(c) -> CaseInfo:
         # format(value, pattern) / value.__format__ is the same function of (pattern, culture, value): the harness pins
         # the current culture to the invariant culture
         need(format(v, lib_pattern) == text, f"determinism/__format__/{t}", f"{lib_pattern!r}: {format(v, lib_pattern)!r} vs {text!r}")
-    p2 = build_pattern(t, lib_pattern, cname, v, tmpl)
+    p2 = build_pattern(t, lib_pattern, cname, v, tmpl, keep_iso)
     need(p2.format(v) == text, "determinism/fresh-pattern", f"{lib_pattern!r} [{cname}]")
     # oracle 1: exact recovery of the projection
     exp = None
@@ -373,6 +379,13 @@ def _k_fpf(c) -> CaseInfo:
                 e3 = project_date(v.calendar.id, v.year, v.month, v.day, f, tm)
                 e = project_time(v.nanosecond_of_day, f, tm.nanosecond_of_day)
                 exp = None if e3 is None or e is None else ("datetime", e3, e)
+    if keep_iso and exp is None:
+        tm0 = getattr(p, "template_value", None)
+        if t == "date":
+            exp = ("date", (v.year, v.month, v.day))
+        elif tm0 is not None:
+            e = project_time(v.nanosecond_of_day, f, tm0.nanosecond_of_day)
+            exp = None if e is None else ("datetime", (v.year, v.month, v.day), e)
     r = p.parse(text)
     if not r.success:
         representable = exp is not None or t in ("offset", "duration") or (t == "time") or (t == "annual" and "M" in f and "d" in f) or (len(pattern) == 1)
@@ -574,6 +587,20 @@ def task_witness(ctx: Ctx) -> None:
         ctx.case("fpf", case)
 
 
+def task_calendar_in_text(ctx: Ctx) -> None:
+    """Every calendar through patterns whose own `c` field has to carry it (default ISO template), plain and embedded."""
+    pats = {
+        "date": ["uuuu-MM-dd c", "c uuuu-MM-dd", "uuuu-MM-dd '('c')'"],
+        "datetime": ["uuuu-MM-dd c HH:mm", "ld<uuuu-MM-dd c> lt<HH:mm>", "ld<uuuu-MM-dd '('c')'>'T'HH:mm:ss", "lt<HH:mm> ld<c uuuu/MM/dd>"],
+    }
+    for cid in pyo.cal_ids():
+        for n in (0, 2, 19782, 400):
+            for t, pl in pats.items():
+                for pat in pl:
+                    v = {"cal": cid, "n": n} if t == "date" else {"cal": cid, "n": n, "ns": 45240000000000}
+                    ctx.case("fpf", {"type": t, "pattern": pat, "culture": "", "value": v})
+
+
 def task_cultures(ctx: Ctx, cultures: list[str], seed: int) -> None:
     """Every culture is visited for every type with a fixed panel of patterns and a few values."""
     vals = {
@@ -598,6 +625,7 @@ def tasks(tier: str, seed: int) -> list[Task]:
     for j in range(k):
         out.append(Task("task_cultures", {"cultures": names[j::k], "seed": seed}, f"cultures-{j}"))
     out.append(Task("task_witness", {}, "witness"))
+    out.append(Task("task_calendar_in_text", {}, "calendar-in-text"))
     for i in range(14):
         cults = [""] + [names[sub_seed(seed, "c07c", i, q) % len(names)] for q in range(40)]
         out.append(Task("task_hyp", {"shard": i, "n": 5000 if not thorough else 60000, "cultures": cults}, f"hyp-{i}"))
